@@ -10,7 +10,13 @@ def run(tier):
     c.add_tlc(r, "frames (rational rotations x translations; longitude offsets); exact group structure on the lattice")
     beh = list(dict.fromkeys(r.behaviours))
     trench = [b for b in beh if '"trench-shapes"' in b[:600]]
-    beh = [b for b in beh if '"trench-shapes"' not in b[:600]] + (trench[c.seed % 11::11] if quick else trench[c.seed % 5::5])
+    beh = [b for b in beh if '"trench-shapes"' not in b[:600]] + (trench[c.seed % 11::11] if quick else trench[c.seed % 2::2])
+    if not quick:
+        sim = tlc.run("Motion.tla", "Motion_sim.cfg", workers=8, timeout=3000, heap="16g", simulate=60, depth=8, seed=c.seed)
+        c.add_tlc(sim, "simulated trenches of up to 6 points on the 4x4 lattice")
+        sb = list(dict.fromkeys(sim.behaviours))
+        if len(sb) < 50: raise tlc.SetupError("the trench simulation emitted too few polylines")
+        beh += sb
     res = replay.replay(exe, beh, shards=16, timeout_s=120)
     c.add_replay(res, "base world at p vs moved world at g.p")
     c.sample(beh[0][:2500] + "...")
@@ -26,7 +32,7 @@ def run(tier):
                           "compositions and tag, tolerance 1e-6; spherical probes also with longitude +-360. Trench family: slabs and faults on every "
                           "polyline of 3 (thorough: up to 4) points of a 3x3 (4x4) lattice without exactly collinear triples -- sharp turns, "
                           "axis-parallel parts, V and S shapes -- with a temperature linear in the distance from the plane, under three rotations / "
-                          "translations, compared on a dense lattice of points at two depths (a third / a seventh of the worlds per run); a "
+                          "translations, compared on a dense lattice of points at two depths (an eleventh of the worlds per quick run, half of them per thorough run, plus simulated trenches of up to 6 points on the 4x4 lattice); a "
                           "disagreement is dropped (and counted) only if the base world's own answer is unstable under a 1e-7 jitter. non-trivial: all")
     c.assumptions += ["probes are at least 10 km from every feature boundary, so membership cannot flip by rounding; the statement's 'up to rounding' is taken as 1e-6 relative",
                       "velocities and grain orientations are not compared (the statement lists temperature, composition, tag and grains; no grains models here)"]
